@@ -204,7 +204,9 @@ def flag_at_partition_cut(ast):
             seen_flag = True
             ci = it[2]
             continue
-        variant = it[0] not in ("lit", "sep") or (it[0] == "lit" and ci and any(c.lower() != c.upper() for c in it[1]))
+        sep_class = it[0] == "class" and not it[1] and all(a[0] == "c" and a[1] == "/" for a in it[2])
+        variant = (it[0] not in ("lit", "sep") and not sep_class) or \
+                  (it[0] == "lit" and ci and any(c.lower() != c.upper() for c in it[1]))
         if variant:
             return seen_flag
     return seen_flag
@@ -293,3 +295,18 @@ def tree_inside_repetition(ast):
     """Some repetition body contains a tree wildcard (`<a/**>*`, `<a/**:0,1>{a}`)."""
     return ast is not None and any(it[0] == "rep" and any(x[0] == "tree" for x in gen.walk_items(it[1]))
                                    for it in gen.walk_items(ast))
+
+
+def has_nullable_top_component(ast):
+    """A top-level component consists only of tokens that can match the empty string."""
+    if not ast:
+        return False
+    seg, segs = [], []
+    for it in gen.nonflag(ast):
+        if it[0] in ("sep", "tree"):
+            segs.append(seg)
+            seg = []
+        else:
+            seg.append(it)
+    segs.append(seg)
+    return any(s and all(_nullable(x) for x in s) for s in segs)
